@@ -106,6 +106,14 @@ def pipeline(fam, progs, outdir, module, cap=6000, pb=None, workers=6, max_diag=
 
 
 def cached(fam, progs, tier, module, cap, pb):
+    import checks
+    if len(progs) > checks.CHUNK:
+        parts = [cached(fam, progs[i:i + checks.CHUNK], tier, module, cap, pb) for i in range(0, len(progs), checks.CHUNK)]
+        return checks.merge_results(fam, parts)
+    return cached1(fam, progs, tier, module, cap, pb)
+
+
+def cached1(fam, progs, tier, module, cap, pb):
     key = hashlib.sha256(json.dumps([vlib.file_hash(vlib.WBIN), vlib.spec_hash(), fam, tier, module, cap, pb, progs],
                                     sort_keys=True).encode()).hexdigest()[:24]
     cdir = os.path.join(vlib.WORK, "cache")
@@ -116,7 +124,7 @@ def cached(fam, progs, tier, module, cap, pb):
             return json.load(open(cfile))
         except Exception:
             pass
-    out = os.path.join(vlib.WORK, f"wrap-{fam}-{tier}")
+    out = os.path.join(vlib.WORK, f"wrap-{fam}-{tier}" + (f"-{progs[0]['id']}" if tier != "quick" and progs else ""))
     r = pipeline(fam, progs, out, module, cap=cap, pb=pb)
     import checks
     r["sample"] = {"family": fam, "program": progs[-1] if progs else None, "trace": checks.sample_trace(out)}
@@ -183,7 +191,7 @@ def finish(pid, tier, t0, stages_summ, problems, assume, module, extra=None, sam
 def run_c19(tier):
     t0 = time.time()
     vlib.build_wrap()
-    cap = 3000 if tier == "quick" else 100000
+    cap = 3000 if tier == "quick" else 30000
     summ = []
     problems = []
     from concurrent.futures import ThreadPoolExecutor
@@ -292,7 +300,7 @@ def rand_probe(tier):
 def run_c20(tier):
     t0 = time.time()
     vlib.build_wrap()
-    cap = 3000 if tier == "quick" else 100000
+    cap = 3000 if tier == "quick" else 30000
     from concurrent.futures import ThreadPoolExecutor
 
     def stage(st):
